@@ -79,6 +79,10 @@ def conv : Handler
   | "json_bfe_de", [x] => do let ds ← x.natList?; pure (okNE (jsonBfeDe (bigVal ds)))
   | "bincode_bfe", [.nat v] => if v < P then some ("ok:" ++ fmtList (leBytes 8 v)) else none
   | "bincode_bfe_de", [x] => do let b ← bytes x; pure (okNE (bincodeBfeDe b))
+  | "d_reversed", [x] => do let d ← dig x; pure (okLE (digestReversed d))
+  | "d_default", [] => some ("ok:" ++ fmtList digestDefault)
+  | "d_to_vec", [x] => do let d ← dig x; pure ("ok:" ++ fmtList (digestToVec d))
+  | "d_consts", [] => some ("ok:" ++ fmtList [DIGEST_LEN, digestBytesConst])
   | _, _ => none
 
 end TF.Drv.Conv
